@@ -225,7 +225,7 @@ func c01R2(c *Ctx) {
 						continue
 					}
 				}
-				if exc, ok := c01R2Exceptions[c.fnName(fn)+":"+op.ch.Name]; ok {
+				if exc, ok := c.tabledS(c01R2Exceptions, fn, ":"+op.ch.Name); ok {
 					c.ok(rule, key, pos, "tabled: "+exc, true)
 					continue
 				}
@@ -664,7 +664,7 @@ func c01R6(c *Ctx) {
 	}
 	var del ssa.Instruction
 	var mk ssa.Instruction
-	eachInstr(notify, func(r instrRef) {
+	c.eachInstrLogical(notify, func(r instrRef) {
 		if isBuiltinCall(r.I, "delete") && loadedField(callCommon(r.I).Args[0]) == wo {
 			del = r.I
 		}
@@ -713,7 +713,7 @@ func c01R6(c *Ctx) {
 		return cc != nil && isCall && (loadedField(cc.Value) == cancelF || c.cancelsRun(in))
 	}
 	// from the error creation, every path to loop continuation/return passes cancel()
-	path := c.findPath(notify, mk, isCancel, func(in ssa.Instruction) bool {
+	path := c.findPath(mk.Parent(), mk, isCancel, func(in ssa.Instruction) bool {
 		if isReturn(in) {
 			return true
 		}
@@ -877,6 +877,15 @@ func c01R8(c *Ctx) {
 					c.ok(rule, key, c.pos(fn.Pos()), "deferred closure unlocking for its (balanced) parent: "+u, true)
 					continue
 				}
+			}
+		}
+		// a helper with a single call site (e.g. the deferred "check and unlock" of a handler, turned into a method): its
+		// effect on the locks is part of its caller's, whose own balance obligation covers the pair
+		if site := ownerSite[fn]; site != nil {
+			caller := site.Parent()
+			if _, cbad := ub[caller]; !cbad || latentUnbalanced[c.fnName(caller)] != "" {
+				c.ok(rule, key, c.pos(fn.Pos()), "changes the lock state on behalf of its only caller "+c.fnName(caller)+", which is balanced as a whole: "+u, true)
+				continue
 			}
 		}
 		c.bad(rule, key, c.pos(fn.Pos()), "function can return with a different lock state than it was entered with ("+u+"): a lock left held blocks every later notification of the run")
